@@ -935,6 +935,9 @@ def run(ctx: C.Ctx):
         # ---- the generator of the default-engine cls_fromdict as text (model: lean/DW/Model/GenLoad.lean)
         from . import c15_genload
         c15_genload.run_genload(ctx)
+        # ---- the generator of an EnvWizard class's __init__ / dict as text (model: lean/DW/Model/GenEnv.lean)
+        from . import c15_genenv
+        c15_genenv.run_genenv(ctx)
     finally:
         model.SAFE = False
         logging.disable(logging.NOTSET)
